@@ -71,7 +71,8 @@ def runCnfCase (line : String) : String × String :=
   let fmtS := field fs "fmt"
   let l := parseLitTy (field fs "ty")
   let cfg := field fs "cfg" == "1"
-  let ls := field fs "ls" == "1"
+  let lsb := field fs "ls" == "2"     -- one byte per read: delivered = how far the parser looked
+  let ls := field fs "ls" == "1" || lsb
   let full := dataField (field fs "d")
   let (data, fault) := match (field fs "k").toNat? with
     | some k => (full.take k, true)
@@ -79,7 +80,8 @@ def runCnfCase (line : String) : String × String :=
   let lr0 := LR.init data fault
   -- `@<delivered>` of a one-line-per-read source, with the cursor of `lineDeliveredFrom`
   let at_ (cur : VBytes × Nat) (lr : LR) : String × (VBytes × Nat) :=
-    if ls then
+    if lsb then (s!"@{min lr.v.peeked data.length}", cur)
+    else if ls then
       let cur' := lineDeliveredFrom cur lr.v.peeked
       (s!"@{cur'.2}", cur')
     else ("", cur)
